@@ -225,7 +225,16 @@ func (s *Sim) park(g *G, site string, wk waitKind) {
 	g.parked = true
 	s.mu.Unlock()
 	<-g.wake
+	s.mu.Lock()
+	closed := s.closed
+	s.mu.Unlock()
 	raceEnable()
+	if closed {
+		// The simulation is over: a simulated goroutine never continues on its own (it
+		// could block on a real mutex leaked by the program, which synctest cannot see as
+		// durable). Its deferred calls run; hooks are pass-through from now on.
+		runtime.Goexit()
+	}
 }
 
 // Yield is a pure scheduling point.
@@ -269,20 +278,81 @@ func Block(site string, pred func() bool, wakeAt time.Time) bool {
 func Lock(try func() bool, lock func(), site string) {
 	s, g := cur(site)
 	if s == nil {
+		if rs := active.Load(); rs != nil && rs.callerIsRoot() {
+			// The driver must never block on a real mutex (a parked simulated goroutine
+			// may hold it): fail the API call instead; DriverCall recovers this.
+			if !try() {
+				panic(DriverWouldBlock{Site: site})
+			}
+			return
+		}
+		if cs := closedSim.Load(); cs != nil && cs.wasMember() {
+			// after the simulation ended: never wait for a real mutex
+			if !try() {
+				runtime.Goexit()
+			}
+			return
+		}
 		lock()
 		return
 	}
 	s.park(g, site, wRun)
 	for !try() {
 		if active.Load() != s || s.isClosed() {
-			lock()
-			return
+			runtime.Goexit()
 		}
 		g.lockTry = try
 		s.park(g, site, wLock)
 	}
 	g.lockTry = nil
 	g.locks++
+}
+
+// closedSim is the most recently closed simulation (until the next New).
+var closedSim atomic.Pointer[Sim]
+
+//go:norace
+func (s *Sim) wasMember() bool {
+	raceDisable()
+	id := goid()
+	s.mu.Lock()
+	g := s.lookup(id)
+	r := g != nil && !g.root
+	s.mu.Unlock()
+	raceEnable()
+	return r
+}
+
+// DriverWouldBlock is the panic value raised when the driver goroutine would have to wait
+// for a lock held by a parked simulated goroutine.
+type DriverWouldBlock struct{ Site string }
+
+// DriverCall runs fn on the driver; it returns false if fn would have blocked on a lock
+// (fn must only take locks with deferred or immediately following unlocks).
+func DriverCall(fn func()) (ok bool) {
+	defer func() {
+		if e := recover(); e != nil {
+			if _, is := e.(DriverWouldBlock); is {
+				ok = false
+				return
+			}
+			panic(e)
+		}
+	}()
+	fn()
+	return true
+}
+
+//go:norace
+func (s *Sim) callerIsRoot() bool {
+	raceDisable()
+	id := goid()
+	s.mu.Lock()
+	g := s.lookup(id)
+	r := g != nil && g.root && !s.closed
+	s.mu.Unlock()
+	raceEnable()
+	return r
 }
 
 //go:norace
@@ -345,6 +415,21 @@ func (s *Sim) onceFor(o *sync.Once) *onceState {
 	return &s.onces[s.nonce-1]
 }
 
+//go:norace
+func (s *Sim) onceBusy(o *sync.Once) bool {
+	raceDisable()
+	s.mu.Lock()
+	busy := false
+	for i := 0; i < s.nonce; i++ {
+		if s.onces[i].o == o {
+			busy = s.onces[i].running && !s.onces[i].done
+		}
+	}
+	s.mu.Unlock()
+	raceEnable()
+	return busy
+}
+
 // OnceDo emulates sync.Once.Do so that a goroutine parked inside f never blocks another
 // one on the real Once (which synctest could not see as durable).
 //
@@ -352,6 +437,9 @@ func (s *Sim) onceFor(o *sync.Once) *onceState {
 func OnceDo(o *sync.Once, f func(), site string) {
 	s, g := cur(site)
 	if s == nil {
+		if cs := closedSim.Load(); cs != nil && cs.wasMember() && cs.onceBusy(o) {
+			runtime.Goexit() // somebody is (or died) inside this Once: never wait for it
+		}
 		o.Do(f)
 		return
 	}
@@ -360,8 +448,12 @@ func OnceDo(o *sync.Once, f func(), site string) {
 		raceDisable()
 		s.mu.Lock()
 		if s.closed {
+			busy := s.onceFor(o).running && !s.onceFor(o).done
 			s.mu.Unlock()
 			raceEnable()
+			if busy {
+				runtime.Goexit()
+			}
 			o.Do(f)
 			return
 		}
@@ -437,7 +529,13 @@ func (s *Sim) parkKeep(g *G, site string) {
 	g.parked = true
 	s.mu.Unlock()
 	<-g.wake
+	s.mu.Lock()
+	closed := s.closed
+	s.mu.Unlock()
 	raceEnable()
+	if closed {
+		runtime.Goexit()
+	}
 }
 
 //go:norace
@@ -628,6 +726,7 @@ func (s *Sim) Close() {
 	}
 	s.mu.Unlock()
 	raceEnable()
+	closedSim.Store(s)
 	active.CompareAndSwap(s, nil)
 }
 
